@@ -23,6 +23,8 @@ def rbox(rng, m, scale):
 
 def gen_rect(ctx, n):
     rng = ctx.rng
+    import random as _random
+    drng = _random.Random(909)
     cases = []
     for _ in range(n):
         m = rng.choice([2, 2, 3])
@@ -57,7 +59,16 @@ def gen_rect(ctx, n):
             s = -Fraction(rng.randint(1, 4), 4) * scale
         else:
             s = [Fraction(rng.randint(0, 8), 4) * scale for _ in range(m)]
-        cases.append({"kind": "rect", "cone": cn, "W": W, "l1": l1, "u1": u1, "l2": l2, "u2": u2, "slack": s, "rel": kind, "exact": True})
+        off = "0"
+        if len(cases) % 3 == 2 and scale <= 8:
+            # both boxes far from the origin (every third case, own generator): the predicate is about differences of points, so
+            # a common translation — small boxes at centres of 2^10 .. 2^20 — must not change the answer
+            kk = drng.choice([10, 14, 17, 20])
+            ov = [Fraction(drng.choice([-3, -1, 1, 2, 3]) * 2 ** kk) for _ in range(m)]
+            l1 = [a + o for a, o in zip(l1, ov)]; u1 = [a + o for a, o in zip(u1, ov)]
+            l2 = [a + o for a, o in zip(l2, ov)]; u2 = [a + o for a, o in zip(u2, ov)]
+            off = f"2^{kk}"
+        cases.append({"kind": "rect", "cone": cn, "W": W, "l1": l1, "u1": u1, "l2": l2, "u2": u2, "slack": s, "rel": kind, "exact": True, "offset": off})
     return cases
 
 
